@@ -1705,7 +1705,11 @@ Section RT.
   (* ---------------------------------------------------------------- the codec round trip *)
   Definition rep_root (root : bytes) (m : msg) : Prop :=
     match lookup env root with
-    | Some (SObject ps) | Some (SOneof ps) => rep_props ps m
+    | Some (SObject ps) => rep_props ps m
+    | Some (SOneof ps) =>
+        rep_props ps m /\
+        (forall q1 q2, In q1 ps -> In q2 ps ->
+           present (p_path q1) m <> None -> present (p_path q2) m <> None -> q1 = q2)
     | _ => False
     end.
   Definition equiv_root (root : bytes) (m m' : msg) : Prop :=
@@ -1728,7 +1732,7 @@ Section RT.
       destruct (Hd (3 * jsize (JObj ms) + 3)%nat 0) as (b & Hb & Heq).
       { rewrite jsize_obj. lia. } { unfold depth_ok. lia. }
       exists b. split; assumption.
-    - inversion Hrep as [? ? Hok Hvals _ _]; subst.
+    - destruct Hrep as [Hrep _]. inversion Hrep as [? ? Hok Hvals _ _]; subst.
       pose proof (leaves_flat ps (Hflat _ _ Elk)) as Hlv.
       destruct (TOn root ps m txt Elk H) as (ms & -> & Hw & Hd).
       { intros q w Hq Hw. apply (Hvals q w); [rewrite Hlv; exact Hq|exact Hw]. }
